@@ -235,8 +235,14 @@ impl<'a> Lexer<'a> {
     fn err(&self, pos: Pos, msg: &str) -> GoError {
         GoError::new(ErrKind::Lex, pos, "syntax", msg.to_string())
     }
+    #[inline]
     fn peek_char(&self) -> Option<char> {
-        self.text[self.i..].chars().next()
+        let b = *self.src.get(self.i)?;
+        if b < 0x80 {
+            Some(b as char)
+        } else {
+            self.text[self.i..].chars().next()
+        }
     }
     fn peek_byte(&self, off: usize) -> u8 {
         *self.src.get(self.i + off).unwrap_or(&0)
@@ -244,6 +250,7 @@ impl<'a> Lexer<'a> {
     fn at_end(&self) -> bool {
         self.i >= self.src.len()
     }
+    #[inline]
     fn bump(&mut self) -> Option<char> {
         let c = self.peek_char()?;
         self.i += c.len_utf8();
@@ -251,7 +258,8 @@ impl<'a> Lexer<'a> {
             self.line += 1;
             self.col = 1;
         } else {
-            self.col += 1;
+            // columns are byte based, like Go's
+            self.col += c.len_utf8() as u32;
         }
         Some(c)
     }
@@ -292,8 +300,9 @@ impl<'a> Lexer<'a> {
             let nl_pos;
             loop {
                 match self.peek_byte(0) {
-                    b' ' | b'\t' | b'\r' if !self.at_end() => {
-                        self.bump();
+                    b' ' | b'\t' | b'\r' => {
+                        self.i += 1;
+                        self.col += 1;
                     }
                     b'\n' => {
                         saw_newline = true;
@@ -354,6 +363,10 @@ impl<'a> Lexer<'a> {
             }
             if is_letter(c) {
                 let start = self.i;
+                while self.i < self.src.len() && (self.src[self.i].is_ascii_alphanumeric() || self.src[self.i] == b'_') {
+                    self.i += 1;
+                    self.col += 1;
+                }
                 while let Some(ch) = self.peek_char() {
                     if is_letter(ch) || is_ascii_digit(ch) {
                         self.bump();
@@ -415,7 +428,7 @@ impl<'a> Lexer<'a> {
     fn operator(&mut self, c: char, pos: Pos) -> Result<(), GoError> {
         self.bump();
         let n = self.peek_byte(0);
-        let mut eat = |l: &mut Lexer| {
+        let eat = |l: &mut Lexer| {
             l.bump();
         };
         let tok = match c {
@@ -820,6 +833,14 @@ pub fn lex(text: &str) -> Result<Vec<Token>, GoError> {
             }
         }
         return Err(GoError::new(ErrKind::Lex, Pos { line, col }, "syntax", "invalid NUL character".into()));
+    }
+    // a byte order mark is only allowed as the very first character of the file
+    let body = text.strip_prefix('\u{feff}').unwrap_or(text);
+    if let Some(off) = body.find('\u{feff}') {
+        let before = &body[..off];
+        let line = before.matches('\n').count() as u32 + 1;
+        let col = before.rsplit('\n').next().map(|l| l.len()).unwrap_or(0) as u32 + 1;
+        return Err(GoError::new(ErrKind::Lex, Pos { line, col }, "syntax", "invalid BOM in the middle of the file".into()));
     }
     lx.run()?;
     Ok(lx.out)
